@@ -213,6 +213,27 @@ func checkC02(w *Worker) {
 		}
 		verify(x, bi, ri, c02Books[bi], lg)
 	})
+	// wide days: more distinct foods than a slice's first capacities (8, 16, 32), with one or two foods
+	// repeated before and after the growth points
+	w.Explore("wide-days", ExploreOpts{ShardDepth: 3}, func(x *Exec) {
+		ri := x.Choose(nRend, "input:renderer")
+		D := []int{8, 9, 10, 16, 17, 33}[x.Choose(6, "input:distinct-foods")]
+		rep1 := []int{0, 3, 7, 8}[x.Choose(4, "input:repeated-food")]
+		at := x.Choose(3, "input:repeat-position") // after the 5th, after the (D-1)th, after the last distinct food
+		d := absDay{Date: dates[0]}
+		for j := 0; j < D; j++ {
+			name := fmt.Sprintf("food/%02d", j)
+			if j == 2 {
+				name = "r1"
+			}
+			d.Entries = append(d.Entries, absIng{name, float64(int(1) << uint(j%20))})
+			if rep1 < D && ((at == 0 && j == 4) || (at == 1 && j == D-2) || (at == 2 && j == D-1)) && rep1 <= j {
+				d.Entries = append(d.Entries, absIng{d.Entries[rep1].Name, 0.5})
+			}
+		}
+		d.Entries = append(d.Entries, absIng{d.Entries[0].Name, 0.25})
+		verify(x, 0, ri, c02Books[0], absLog{d})
+	})
 	// merge shapes: longer days over a small food alphabet; the i-th entry has quantity 2^i, so the
 	// merged quantity of a food identifies exactly which entries were folded into it
 	maxLen := 6
